@@ -5,7 +5,7 @@ import ast
 from typing import List, Optional, Set
 
 from ..cfg import CFG
-from ..model import AnalysisError, attr_path, dotted, expand_path, local_aliases, unparse, walk_no_nested
+from ..model import AnalysisError, attr_path, const_str, dotted, expand_path, local_aliases, unparse, walk_no_nested
 from ..report import Check
 from .c01 import _is_reader
 from .c02 import _facts, _through_enum
@@ -278,37 +278,47 @@ def _validation(chk: Check) -> None:
         chk.ob("R17.6", "ByteInterval._decode_protobuf:constructs-validated", ok, dec.loc(),
                "the interval decoder must construct through cls(size=<message size>, "
                "contents=<message contents>) so that stored bytes > size is rejected", 3)
-    # oneofs end in a raise
-    for fq, alts in (("ByteInterval._decode_protobuf.decode_block", ("code", "data")),
-                     ("ByteInterval._decode_symbolic_expressions.decode_symbolic_expression",
-                      ("addr_const", "addr_addr"))):
-        g = None
-        for cand in repo.all_functions():
-            if cand.qualname == fq:
-                g = cand
-        if g is None:
-            chk.ob("R17.6", fq + ":oneof", False, bi.loc(), "%s vanished" % fq, 1)
+    # oneofs end in a raise: wherever a reader dispatches on the alternatives of Block.value /
+    # SymbolicExpression.value (found through the schema-typed HasField tests, not by name), all
+    # alternatives are tested and the case "none is set" does not fall through
+    for msg, alts in (("Block", ("code", "data")), ("SymbolicExpression", ("addr_const", "addr_addr"))):
+        by_func: Dict[str, List] = {}
+        for a_ in alts:
+            for r in pf.read(msg, a_):
+                if r.how == "hasfield":
+                    by_func.setdefault(r.f.qualname, []).append(r)
+        if not by_func:
+            chk.ob("R17.6", "%s.value:oneof" % msg, False, bi.loc(),
+                   "no reader dispatches on the alternatives of %s.value" % msg, 1)
             continue
-        chk.saw(g)
-        c2 = CFG(g.node)
-        none_set: Set[int] = set()
-        tested = set()
-        for n, i in c2.info.items():
-            if i.kind == "test" and isinstance(i.ast, ast.Call) and isinstance(i.ast.func, ast.Attribute) \
-                    and i.ast.func.attr == "HasField" and i.ast.args and \
-                    isinstance(i.ast.args[0], ast.Constant):
-                tested.add(i.ast.args[0].value)
-        # the path on which every HasField is false
-        cur = c2.entry
-        falses = {b for b in c2.info if c2.info[b].kind == "branch" and c2.info[b].value is False
-                  and isinstance(c2.info[c2.info[b].test].ast, ast.Call)}
-        trues = {b for b in c2.info if c2.info[b].kind == "branch" and c2.info[b].value is True
-                 and isinstance(c2.info[c2.info[b].test].ast, ast.Call)}
-        normal_without_alt = c2.path_avoiding(c2.entry, c2.exit, trues)
-        ok = set(alts) <= tested and normal_without_alt is None
-        chk.ob("R17.6", fq + ":oneof-exhaustive", ok, g.loc(),
-               "%s must handle every alternative (%s) and raise when none is set; a message with "
-               "an empty oneof would otherwise yield a half-built object" % (fq, ", ".join(alts)), 2)
+        for fq, rs in sorted(by_func.items()):
+            g = rs[0].f
+            chk.saw(g)
+            c2 = CFG(g.node)
+            tested = {const_str(r.node.args[0]) for r in rs if isinstance(r.node, ast.Call) and r.node.args}
+            has_tests = {n for n, i in c2.info.items() if i.kind == "test" and isinstance(i.ast, ast.Call)
+                         and isinstance(i.ast.func, ast.Attribute) and i.ast.func.attr == "HasField"}
+            trues = {b for b in c2.info if c2.info[b].kind == "branch" and c2.info[b].value is True
+                     and c2.info[b].test in has_tests}
+            # region: one message — the body of the loop over the messages when the dispatch sits in one
+            src, dst = c2.entry, c2.exit
+            cur = getattr(rs[0].node, "_parent", None)
+            while cur is not None and cur is not g.node:
+                if isinstance(cur, ast.For) and id(cur) in c2.by_ast:
+                    head = c2.by_ast[id(cur)]
+                    inb = [s_ for s_ in c2.g.successors(head) if c2.info[s_].kind == "branch" and c2.info[s_].value]
+                    if inb:
+                        src, dst = inb[0], head
+                    break
+                cur = getattr(cur, "_parent", None)
+            normal_without_alt = c2.path_avoiding(src, dst, trues)
+            if normal_without_alt is None and dst != c2.exit:
+                normal_without_alt = None if c2.path_avoiding(src, c2.exit, trues | {dst}) is None else \
+                    c2.path_avoiding(src, c2.exit, trues | {dst})
+            ok = set(alts) <= tested and normal_without_alt is None
+            chk.ob("R17.6", fq + ":oneof-exhaustive", ok, g.loc(),
+                   "%s must handle every alternative (%s) and raise when none is set; a message with "
+                   "an empty oneof would otherwise yield a half-built object" % (fq, ", ".join(alts)), 2)
     # UUIDs go through UUID(bytes=...)
     nf = repo.cls("Node").methods["_from_protobuf"]
     ok = any(isinstance(c, ast.Call) and attr_path(c.func) == ("UUID",) and
@@ -375,7 +385,7 @@ def _no_swallow(chk: Check) -> None:
                         if allow_enum and _enum_call(c_):
                             continue
                         return False
-                    return all(isinstance(s_, (ast.Assign, ast.AnnAssign, ast.Expr)) for s_ in stmts)
+                    return all(isinstance(s_, (ast.Assign, ast.AnnAssign, ast.Expr, ast.Return)) for s_ in stmts)
                 tolerated = (d is not None and d[-1] == "ValueError" and _only(t.body, True)
                              and any(_enum_call(x) for s_ in t.body for x in ast.walk(s_) if isinstance(x, ast.Call))
                              and _only(h.body, False) and not t.orelse and not t.finalbody)
